@@ -21,7 +21,7 @@ CONF = os.environ.get("SEED_CONF", "/tmp/confirm")
 RENAME = dict(x.split("=") for x in os.environ.get("SEED_RENAME", "").split(",") if x)
 history = json.load(open(sys.argv[1])) if len(sys.argv) > 1 else {}
 
-head = subprocess.check_output(["git", "-C", "/repo", "rev-parse", "--short", "HEAD"], text=True).strip()
+head = os.environ.get("SEED_HEAD") or subprocess.check_output(["git", "-C", "/repo", "rev-parse", "--short", "HEAD"], text=True).strip()
 kept, dropped = [], []
 for prop in sorted(os.listdir(OUT)):
     if not re.fullmatch(r"C\d\d", prop):
